@@ -264,18 +264,20 @@ Mint(rec) == /\ rec.parent \in DOMAIN blocks
 
 \* A block whose parent is known is delivered: insert_block commit, then verify_block (one commit) and the
 \* publication of the new snapshot - or the deletion of the block when it (or its fork) is refused.
-DeliverRes(b) ==
-  IF Par(b) \in invalid THEN [res |-> "failed", d |-> db]     \* process_invalid_block: inserted and deleted again
-  ELSE ProcessOp([db EXCEPT !.stored = @ \cup {b}], snap.td, snap.tip, b)
+\* DeliverOp is the pure form over a state record [db, snap, invalid] (used by CrashRecovery for the crash-free run).
+DeliverOp(st, b) ==
+  LET r == IF Par(b) \in st.invalid THEN [res |-> "failed", d |-> st.db]   \* process_invalid_block: inserted and deleted again
+           ELSE ProcessOp([st.db EXCEPT !.stored = @ \cup {b}], st.snap.td, st.snap.tip, b)
+  IN [res |-> r.res, db |-> r.d,
+      snap |-> CASE r.res = "attached" -> SnapOf(r.d, EpochOf(b))
+                 [] r.res = "side" -> [st.snap EXCEPT !.db = r.d]       \* refresh_snapshot
+                 [] OTHER -> st.snap,
+      invalid |-> IF r.res = "failed" THEN st.invalid \cup {b} ELSE st.invalid]
+DeliverRes(b) == DeliverOp([db |-> db, snap |-> snap, invalid |-> invalid], b)
 Deliver(b) ==
   /\ b \in DOMAIN blocks /\ b # 0
   /\ Par(b) \in invalid \/ Par(b) \in DOMAIN db.ext
-  /\ LET r == DeliverRes(b) IN
-       /\ db' = r.d
-       /\ snap' = CASE r.res = "attached" -> SnapOf(r.d, EpochOf(b))
-                    [] r.res = "side" -> [snap EXCEPT !.db = r.d]       \* refresh_snapshot
-                    [] OTHER -> snap
-       /\ invalid' = IF r.res = "failed" THEN invalid \cup {b} ELSE invalid
+  /\ LET r == DeliverRes(b) IN db' = r.db /\ snap' = r.snap /\ invalid' = r.invalid
   /\ UNCHANGED blocks
 
 \* ChainController::truncate (test-only API, part of the property)
